@@ -25,7 +25,7 @@ def plan(tier, seed):
     for lane in ('sisdr', 'input', 'output', 'snr'):
         for r in range(n):
             cases.append(dict(lane=lane, T=int(rng.choice([8, 16, 100, 1000, 4096])), K=int(rng.integers(1, 5)), M=int(rng.integers(1, 6)),
-                              lead=[[], [3], [2, 2]][int(rng.integers(0, 3))], scale=float(10 ** rng.uniform(-6, 6)),
+                              lead=[[], [3], [2, 2], [1], [1, 3], [2, 1], [1, 1]][int(rng.integers(0, 7))], scale=float(10 ** rng.uniform(-6, 6)),
                               avg_s=bool(rng.integers(0, 2)), avg_c=bool(rng.integers(0, 2)), rd=[False, True, 'pre_'][int(rng.integers(0, 3))], rs=[seed, 19, i]))
             i += 1
     return cases
@@ -56,6 +56,9 @@ def run_sisdr(case, R):
         alpha = float(np.dot(ss, ee) / np.dot(ss, ss))
         ref[idx] = 10 * np.log10(np.sum((alpha * ss) ** 2) / np.sum((ee - alpha * ss) ** 2))
     amp = 40 * np.finfo(float).eps * 10 ** (float(np.max(ref)) / 20)          # rounding of s_hat - alpha s, amplified at high SI-SDR
+    if got.shape != ref.shape:
+        R.fail('C19.sisdr', 'sisdr/shape', f'si_sdr of signals {s.shape} has shape {got.shape}, not one value per leading index {ref.shape}', lead=list(lead), T=T)
+        return
     dv = float(np.abs(got - ref).max())
     R.check('C19.sisdr', got.shape == ref.shape and dv <= 1e-8 + amp, 'sisdr/value', f'si_sdr deviates from 10 log10(|alpha s|^2/|s_hat - alpha s|^2) by {dv:.3e} dB', dev=dv, lead=list(lead), T=T)
     for name, (a, b) in {'estimate': (1.0, float(rng.choice([-1, 1]) * 10 ** rng.uniform(-6, 6))), 'reference': (float(rng.choice([-1, 1]) * 10 ** rng.uniform(-6, 6)), 1.0)}.items():
